@@ -11,6 +11,10 @@ def _h(name, ht, fcap, hmax, unwind, extra=(), **kw):
 _f = ["read_header_from_file", "validate_header", "hash_init", "hash_update", "hash_finalize", "read_data", "zrealloc"]
 _fw = ["header_create", "index_create", "preface_create", "sig_create", "lead_create", "compint_from_size", "compint_from_int",
        "hash_init", "hash_update", "hash_finalize"]
+import C07 as _c07
+_lead = dict([h for h in _c07.SPEC["harnesses"] if h["name"] == "h07c"][0])
+_lead.update(name="h06l-lead", defines=list(_lead.get("defines", [])) + ["-DH_h07c"], what="the lead stage accepts only the two identifiers and a well-formed lead (same harness as C07 h07c): bytes 0..4 "
+             "are not in the hashed message, so this comparison is what covers them")
 SPEC = {
     "explanation": "read_header_from_file+validate_header run on the state a successful lead read leaves (built from a symbolic file through the "
                    "reference lead parser; h07c proves the real read_lead yields it) with a recording hash model: the hashed message must be "
@@ -24,6 +28,7 @@ SPEC = {
     "assumptions": ["hash back end replaced by env/hash_acc.c (records the message; digest deterministic)",
                     "zmalloc/zrealloc replaced by env/padalloc.c (fixed-capacity buffers with tracked logical size), memcpy/memset by env/mem.c", "LeadInv state constructed from the reference lead parser (proved equal to read_lead's result by C07 h07c)"],
     "harnesses": [
+        _lead,
         _h("h06r", 3, 56, 40, 58, what="reader: hashed message and digest comparison, SHA-512/128 (16-byte digest)", bounds="file <= 56 bytes, header_length 1..12", functions=_f),
         _h("h06r", 0, 60, 40, 62, what="same, SHA-1 (20-byte digest, not a multiple of 8)", bounds="file <= 60 bytes", functions=_f),
         _h("h06r", 1, 72, 40, 74, what="same, SHA-256", bounds="file <= 72 bytes", functions=_f, tiers=("thorough",)),
